@@ -12,7 +12,9 @@ data of the `Universe`; what a requirement string *means* is C03/C12's business)
 
 Every theorem is of the form: *for every universe, root and fuel, if the run finishes
 (`resolve u rn rv fuel = some (.ok st)`) then …*. Termination is not proved; for universes
-with aliases it is false (`alias_cycle_never_finishes`, file `Props/C06Cycle.lean`).
+with aliases it is false (`alias_cycle_never_finishes`, helper file `Proofs/C06Cycle.lean`).
+Universes with bundled (derived) packages are outside this model (`Model/Resolve/NpmBundle.lean`
+covers them for the correspondence only).
 
 | clause | theorem | strength |
 |---|---|---|
@@ -26,7 +28,7 @@ with aliases it is false (`alias_cycle_never_finishes`, file `Props/C06Cycle.lea
 | E1 what each edge's branch guarantees | `e1_edge_cases` | full (alias path: version string only) |
 | E1 target is a satisfying version of the required package | `e1_partial` | needs `AliasFree`, `TableWf`; `e1_alias_refuted` |
 | every edge resolves a requirement of its source | `edges_from_requirements` | full |
-| T2 Node's walk-up lookup lands on the edge's target | `t2_partial` | needs `AliasFree`, `U3`, `TableWf` |
+| T2 Node's walk-up lookup lands on the edge's target | `t2_partial` | needs `AliasFree`, `U3`, `TableWf`; `t2_alias_refuted` |
 | termination | not proved; false with aliases: `alias_cycle_never_finishes` | — |
 -/
 
@@ -659,3 +661,24 @@ example :
         [[], [10], [11], [12], [12, 11]] := by decide
 
 end DepsDev.Props.C06
+
+/-
+TIES (DESIGN 3.3): every theorem above is about `DepsDev.Resolve.Npm.resolve` and the
+definitions it calls (`loop`, `stepDeps`, `stepDep`, `walkUp`, `walkAt`, `candidate`,
+`markProtected`, `hoist`, `isProtected`, `wouldPick`, `pickFrom`, `pickLoop`,
+`concreteForLatest`, `newTreeNode`, `regularImports`, `keepImport`, `Universe.*` look-ups),
+tied to util/resolve/npm/resolve.go by the op `C06 resolve` (graph, install tree, protected
+sets compared byte for byte). No generated (`Gen.*`) constant is used.
+
+  e3_reachable, t1_one_name_per_directory, e1_edge_cases, edges_from_requirements,
+  e2_regular_resolved, e4_fresh_pick      : resolve_inv (Proofs/C06Loop.lean: SInv, LoopInv)
+  e1_partial                              : + no_alias_slot, tableWf_row            [AliasFree, TableWf]
+  e2_partial                              : + regularImports_covers                 [OptPlain]
+  e4_latest_partial, e4_highest_partial   : + wouldPick_spec, PickSpec.*            [LatestLast | U2, TableWf]
+  t2_partial                              : resolve_t2 (Proofs/C06T2.lean: PInv), lookupUp_of_prot
+                                                                                   [AliasFree, U3, TableWf]
+  e1_alias_refuted, t2_alias_refuted, e2_optpeer_refuted, e4_latest_refuted : `decide` on witness universes
+  alias_cycle_never_finishes              : Proofs/C06Cycle.lean (Chain invariant, induction on fuel)
+The hypotheses AliasFree, LatestLast, OptPlain, WF are evaluated by the driver's op
+`C06 classify` with these very definitions and compared with the harness classifier.
+-/
